@@ -63,6 +63,8 @@ type Sim struct {
 	Tokens   map[string]TokenAnswer
 	PageSize int
 	Synced   bool
+	// NotFoundWhenEmpty: the current-count endpoint answers 404 while the contract's event log is empty (fresh deployment)
+	NotFoundWhenEmpty bool
 	// CountLag: the current-count endpoint answers len(Log)-CountLag (count moving backwards)
 	CountLag int
 	// MidTick are mutations executed right after the next current-count answer (events arriving
@@ -79,9 +81,12 @@ type Sim struct {
 	PerKey map[string]int // identical requests in the current step
 }
 
+// FreshContract404 makes every Sim created from now on answer 404 for the count of an empty log.
+var FreshContract404 bool
+
 func NewSim(gov string) *Sim {
 	return &Sim{Gov: gov, Blocks: map[string]*Block{}, TxEvents: map[string][]Event{}, TxBlock: map[string]string{}, Tokens: map[string]TokenAnswer{},
-		PageSize: 100, Synced: true, FailNext: map[string]int{}, PerKey: map[string]int{}, Hold: map[string]chan struct{}{}}
+		PageSize: 100, Synced: true, FailNext: map[string]int{}, PerKey: map[string]int{}, Hold: map[string]chan struct{}{}, NotFoundWhenEmpty: FreshContract404}
 }
 
 func (s *Sim) Activity() uint64 {
@@ -183,6 +188,10 @@ func (s *Sim) RoundTrip(req *http.Request) (*http.Response, error) {
 		n := len(s.Log) - s.CountLag
 		if n < 0 {
 			n = 0
+		}
+		if n == 0 && s.NotFoundWhenEmpty {
+			// a real full node answers 404 for the event count of a contract that has not emitted anything yet
+			return apiErr(req, 404, "contract events count not found"), nil
 		}
 		mid := s.MidTick
 		s.MidTick = nil
